@@ -13,26 +13,32 @@ theorem execVs_append (ρ : Nat → Int) : ∀ (a b : VStmts) (p : Pending),
 /-- Declared widths. -/
 def wdOf (sigs : Array SigDecl) : Nat → Nat := widthOf sigs
 
-/-- The reset value of every listed signal is printable in its declared width. -/
+/-- The reset value of every listed signal is printable in its declared width/sign (`constOk`). -/
 def resetsOk (sigs : Array SigDecl) : List Nat → Bool
   | [] => true
   | i :: is =>
-    decide ((sigs.getD i default).reset.natAbs < 2 ^ (sigs.getD i default).w) &&
-      decide (0 < (sigs.getD i default).w) && resetsOk sigs is
+    constOk (sigs.getD i default).reset (sigs.getD i default).w (sigs.getD i default).s && resetsOk sigs is
 
 theorem fitsV_printConst (ρ : Nat → Int) (v : Int) (w : Nat) (s sg : Bool) (hw : 0 < w) :
     fitsV ρ (printConst v w s).1 w sg = true := by
-  unfold printConst
-  split <;> simp [fitsV, fitsAt, hw]
+  cases s
+  · simp only [printConst, Bool.false_eq_true, if_false]
+    unfold printConstU
+    split <;> simp [fitsV, fitsAt, hw]
+  · simp [printConst, fitsV, fitsAt, hw]
 
 theorem fits_resetStmts (ρ : Env) (sigs : Array SigDecl) :
     ∀ (l : List Nat), resetsOk sigs l = true → fitsSs ρ (resetStmts sigs l) = true
   | [], _ => rfl
   | i :: is, h => by
-    simp only [resetsOk, Bool.and_eq_true, decide_eq_true_eq] at h
+    simp only [resetsOk, Bool.and_eq_true] at h
+    have hw0 : 0 < (sigs.getD i default).w := by
+      have := h.1
+      simp only [constOk, Bool.and_eq_true, decide_eq_true_eq] at this
+      exact this.2
     simp only [resetStmts, fitsSs, fitsS, fitsAssign, targetOk, leafOk, Fits, fitsP, Bool.and_eq_true,
       decide_eq_true_eq]
-    refine ⟨⟨h.1.2, ⟨h.1.1, h.1.2⟩, ?_⟩, fits_resetStmts ρ sigs is h.2⟩
+    refine ⟨⟨hw0, h.1, ?_⟩, fits_resetStmts ρ sigs is h.2⟩
     have hsw : selfWidth (printE (Expr.const (sigs.getD i default).reset (sigs.getD i default).w
         (sigs.getD i default).s)).1 = (sigs.getD i default).w := by
       simp only [printE]; exact selfWidth_printConst _ _ _
@@ -40,7 +46,7 @@ theorem fits_resetStmts (ρ : Env) (sigs : Array SigDecl) :
         = (sigs.getD i default).w := by simp [printE, selfWidth]
     rw [hsw, hsw2, Nat.max_self]
     simp only [printE]
-    exact fitsV_printConst ρ _ _ _ _ h.1.2
+    exact fitsV_printConst ρ _ _ _ _ hw0
 
 theorem wf_resetStmts (sigs : Array SigDecl) : ∀ (l : List Nat), wfSs (wdOf sigs) (resetStmts sigs l)
   | [] => trivial
